@@ -241,6 +241,8 @@ def parse_op(line):
         return (k, int(p.next()), p.zmap())
     if k in ("permapi", "permapiom"):
         return ("permapi", int(p.next()), p.next(), p.bindfn())
+    if k in ("perfilter", "perfilterom"):
+        return ("perfilter", int(p.next()), p.next(), p.bindfn())
     if k == "adddep":
         return (k, int(p.next()), int(p.next()), int(p.next()), p.next() == "1")
     if k == "rmdep":
